@@ -62,8 +62,12 @@ struct H2FrontendOptions
   static constexpr size_t unbounded_queue_max_capacity = H2_QMAX;
   static constexpr quill::HugePagesPolicy huge_pages_policy = quill::HugePagesPolicy::Never;
 };
+#ifdef H2_MIXED
+  #include "h2_mixed_types.h" // two frontends in one process: FE / LoggerT dispatch by logger name (harness/h2_mixed.cpp)
+#else
 using FE = quill::FrontendImpl<H2FrontendOptions>;
 using LoggerT = quill::LoggerImpl<H2FrontendOptions>;
+#endif
 
 // ------------------------------------------------------------------------------------------------
 // virtual time and parking
@@ -506,6 +510,9 @@ static uint64_t writer_bytes()
   // (asking for the context would register it, which must be left to the log call itself)
   auto* tc = quill::detail::LoggerBase::thread_context;
   if (!tc) { return 0; }
+#ifdef H2_MIXED
+  if (tc->has_unbounded_queue_type()) { return h2_unbounded_writer_bytes(tc); } // cumulative over the nodes of the chain
+#endif
 #if H2_VARIANT <= 1
   return tc->get_spsc_queue_union().bounded_spsc_queue._writer_pos;
 #else
